@@ -53,6 +53,7 @@ class DC:
         self.epm_status = 0
         self.tamper: t.Optional[t.Callable[["Conn", bytes, dict], bytes]] = None
         self.segment: t.Optional[t.Callable[[bytes], t.List[t.Optional[bytes]]]] = None
+        self.segment_conn: t.Optional[t.Callable[["Conn", bytes], t.List[t.Optional[bytes]]]] = None  # like segment, told which connection
         self.l2_at_31 = True
         self.reply_pad_extra = 0  # extra 16-byte blocks of auth padding (still conforming)
         self.reply_pad: t.Optional[int] = None  # exact auth padding to use (None = minimal 16-byte alignment); may misalign the trailer
@@ -156,7 +157,10 @@ class Conn:
             if reply is None:
                 out.append(None)
                 break
-            out.extend(self.dc.segment(reply) if self.dc.segment else [reply])
+            if self.dc.segment_conn is not None:
+                out.extend(self.dc.segment_conn(self, reply))
+            else:
+                out.extend(self.dc.segment(reply) if self.dc.segment else [reply])
         return out
 
     # -- protocol
